@@ -927,6 +927,10 @@ def _a1_func(prog, rep, om, f, rid, sites):
         t = cond_null_test(n.ast) if isinstance(n.ast, dict) else None
         if not t:
             return st
+        if (lab == 'T') != t[1] and any(x[0] == 'N' and x[1] == t[0] for x in st):
+            # the pointer is known NULL (its allocation failed on this path) and this edge is the non-NULL arm of a
+            # test of it: the edge is infeasible for that fact (`fail: if (p != NULL) { ... p->f ... }`)
+            st = frozenset(x for x in st if not (x[0] == 'N' and x[1] == t[0]))
         sites = set(held(st, t[0]))
         if not sites:
             return st
